@@ -1516,17 +1516,24 @@ class InBodyPhase(Phase):
             innerLoopCounter = 0
 
             index = self.tree.openElements.index(node)
-            while innerLoopCounter < 3:
+            while True:
                 innerLoopCounter += 1
                 # Node is element before node in open elements
                 index -= 1
                 node = self.tree.openElements[index]
-                if node not in self.tree.activeFormattingElements:
-                    self.tree.openElements.remove(node)
-                    continue
                 # Step 9.6
                 if node == formattingElement:
                     break
+                # After three steps the remaining nodes leave the list of
+                # active formatting elements (and so the stack)
+                if (innerLoopCounter > 3 and
+                        node in self.tree.activeFormattingElements):
+                    if self.tree.activeFormattingElements.index(node) < bookmark:
+                        bookmark -= 1
+                    self.tree.activeFormattingElements.remove(node)
+                if node not in self.tree.activeFormattingElements:
+                    self.tree.openElements.remove(node)
+                    continue
                 # Step 9.7
                 if lastNode == furthestBlock:
                     bookmark = self.tree.activeFormattingElements.index(node) + 1
